@@ -181,3 +181,67 @@ Proof.
   destruct (L [] O tf y Hc Hs Ha) as (k & q & d & E & N & W). cbn [app Nat.add] in E.
   rewrite E, walk_cons, N. exact W.
 Qed.
+
+(* ---------- the index sequences of the reachable fields are pairwise different ---------- *)
+Lemma nodup_app {A} (a b : list A) : NoDup a -> NoDup b -> (forall x, In x a -> ~ In x b) -> NoDup (a ++ b).
+Proof.
+  induction 1 as [|x a Hx Ha IH]; intros Hb Hd; [exact Hb|]. cbn [app]. constructor.
+  - rewrite in_app_iff. intros [H|H]; [contradiction|]. apply (Hd x); [now left|exact H].
+  - apply IH; auto. intros y Hy. apply Hd. now right.
+Qed.
+
+Definition paths_f (d : dfield) : Prop := forall pre i,
+  NoDup (map tf_path (cands_f pre i d)) /\
+  (forall tf, In tf (cands_f pre i d) -> exists q, tf_path tf = pre ++ i :: q).
+Definition paths_l (ds : list dfield) : Prop := forall pre j,
+  NoDup (map tf_path (cands_l pre j ds)) /\
+  (forall tf, In tf (cands_l pre j ds) -> exists k q, tf_path tf = pre ++ (j + k)%nat :: q).
+
+Lemma paths_list ds : Forall paths_f ds -> paths_l ds.
+Proof.
+  induction 1 as [|d r Hd Hr IH]; intros pre j; [split; [constructor|intros tf []]|].
+  destruct (Hd pre j) as [N1 S1]. destruct (IH pre (S j)) as [N2 S2]. cbn [cands_l]. split.
+  - rewrite map_app. apply nodup_app; auto. intros p Hp1 Hp2.
+    apply in_map_iff in Hp1. destruct Hp1 as (t1 & <- & I1). apply in_map_iff in Hp2. destruct Hp2 as (t2 & E & I2).
+    destruct (S1 t1 I1) as (q1 & E1). destruct (S2 t2 I2) as (k & q2 & E2). rewrite E1, E2 in E.
+    apply app_inv_head in E. injection E as E _. lia.
+  - intros tf Hin. apply in_app_or in Hin. destruct Hin as [Hin|Hin].
+    + destruct (S1 tf Hin) as (q & E). exists O, q. now rewrite Nat.add_0_r.
+    + destruct (S2 tf Hin) as (k & q & E). exists (S k), q. rewrite E. f_equal. f_equal. lia.
+Qed.
+Lemma paths_all : forall d, paths_f d.
+Proof.
+  induction d as [fi tg t|ptr ds IH] using dfield_ind'; intros pre i.
+  - cbn [cands_f]. destruct (f_skip fi); cbn [map]; split; try (constructor; [intros []|constructor]); try constructor.
+    + intros tf [].
+    + intros tf [<-|[]]. exists []. reflexivity.
+  - rewrite cands_f_DE. destruct (paths_list ds IH (pre ++ [i]) O) as [N1 S1]. split; [exact N1|].
+    intros tf Hin. destruct (S1 tf Hin) as (k & q & E). exists (k :: q). rewrite E, <- app_assoc. reflexivity.
+Qed.
+
+Theorem cands_paths_nodup ds : NoDup (map tf_path (cands_l [] O ds)).
+Proof. apply paths_list. apply Forall_forall. intros d _. apply paths_all. Qed.
+
+Lemma nodup_filter_map {A B} (g : A -> B) (p : A -> bool) l : NoDup (map g l) -> NoDup (map g (filter p l)).
+Proof.
+  induction l as [|x l IH]; cbn [map filter]; intros H; [constructor|]. inversion H as [|? ? Hx Hl]; subst.
+  destruct (p x); [|auto]. cbn [map]. constructor; auto.
+  intros Hin. apply Hx. apply in_map_iff in Hin. destruct Hin as (y & E & Hy). apply filter_In in Hy.
+  apply in_map_iff. exists y. tauto.
+Qed.
+Lemma nodup_transfer {A B C} (g : A -> B) (h : A -> C) l :
+  NoDup (map g l) -> (forall x y, In x l -> In y l -> h x = h y -> g x = g y) -> NoDup (map h l).
+Proof.
+  induction l as [|x l IH]; cbn [map]; intros H Hh; [constructor|]. inversion H as [|? ? Hx Hl]; subst. constructor.
+  - intros Hin. apply Hx. apply in_map_iff in Hin. destruct Hin as (y & E & Hy).
+    apply in_map_iff. exists y. split; [|exact Hy]. apply Hh; [now right|now left|exact E].
+  - apply IH; auto. intros a b Ha Hb. apply Hh; now right.
+Qed.
+
+(* the table has pairwise different index sequences and pairwise different names *)
+Theorem type_fields_nodup ds :
+  NoDup (map tf_path (type_fields ds)) /\ NoDup (map (fun tf => f_name (tf_fi tf)) (type_fields ds)).
+Proof.
+  assert (H : NoDup (map tf_path (type_fields ds))) by (apply nodup_filter_map, cands_paths_nodup).
+  split; [exact H|]. apply (nodup_transfer tf_path); auto. intros x y Hx Hy E. now apply (fields_unique ds).
+Qed.
